@@ -474,6 +474,26 @@ register_parallel_backend("hostsim", HostSimBackend)
 # --------------------------------------------------------------------------- stderr
 
 
+class TqdmClock:
+    """The clock tqdm throttles its redraws with (mininterval 0.1 s, a timer like any
+    other): simulated. Each read advances by the scripted step duration, so a search
+    whose steps are 'slow' redraws the bar - writes to stderr - at every step, and a
+    stream fault lands in the middle of the search instead of only at its start/end."""
+
+    def __init__(self, stats):
+        self.stats = stats
+        self.now = 1.7e9
+        self.dt = 1e-4
+
+    def configure(self, dt):
+        self.dt = float(dt) if dt else 1e-4
+
+    def time(self):
+        self.now += self.dt
+        self.stats["sim_seconds"] += self.dt
+        return self.now
+
+
 class FaultyStream(io.TextIOBase):
     """A stderr whose k-th write fails the way a real terminal/pipe/disk can."""
 
@@ -652,6 +672,7 @@ class Env:
         self.stats = stats if stats is not None else new_stats()
         self.clock = VirtualClock(self.stats)
         self.arpack = ArpackProvider(self.stats)
+        self.tqdm_clock = TqdmClock(self.stats)
         self.progress = ProgressSeam()
         self._patches = []
         self._installed = False
@@ -715,6 +736,17 @@ class Env:
                 if new is not None:
                     self._patches.append((mod, g, v))
                     setattr(mod, g, new)
+        # tqdm's redraw throttle reads `tqdm.std.time`: owned by the simulator as well
+        try:
+            import tqdm.std as _ts
+
+            for g, v in list(vars(_ts).items()):
+                if v is _real_time.time:
+                    self._patches.append((_ts, g, v))
+                    setattr(_ts, g, self.tqdm_clock.time)
+                    self.seams_found["tqdm_clock"] += 1
+        except Exception:  # pragma: no cover
+            pass
         self._installed = True
         return self
 
@@ -742,6 +774,7 @@ class Env:
         jb = spec.get("joblib") or {"mode": "inline"}
         _BACKEND_STATE["script"] = jb
         st = spec.get("stderr") or {"mode": "ok"}
+        self.tqdm_clock.configure(st.get("step_dt"))
         out = {"warnings": [], "stderr": None}
         old_err = sys.stderr
         if st.get("mode") == "none":
